@@ -139,7 +139,7 @@ func runC15(env *core.Env) {
 				out = append(out, core.R("", "--json", "new", "task", "--title", "t", "--epic", e))
 			}
 		}
-		if env.Thorough() && len(tasks)+2 <= maxTasks && len(epics) < 3 {
+		if env.Thorough() && len(tasks) == 0 && len(epics) < 3 { // plan only as a first step: it adds an epic and two tasks at once
 			out = append(out, core.R("", "--json", "plan").In(`{"title":"P","tasks":[{"title":"a"},{"title":"b","after":["a"]}]}`))
 		}
 		for _, t := range tasks {
